@@ -19,6 +19,22 @@ def norm(text: str) -> str:
     return re.sub(r"\s+", " ", text).strip()
 
 
+def shape(text: str) -> str:
+    """Source text with local variable names blanked: `gaps[-1]` and `gap_blocks[-1]` have the same shape `_[-1]`; attribute names, `self`, module
+    names followed by a dot, literals and operators are kept.  Used to key exemptions so that a renamed local does not void them."""
+    import ast
+    try:
+        tree = ast.parse(text.strip(), mode="eval")
+    except SyntaxError:
+        return norm(text)
+    attr_bases = {id(n.value) for n in ast.walk(tree) if isinstance(n, ast.Attribute)}
+    call_funcs = {id(n.func) for n in ast.walk(tree) if isinstance(n, ast.Call)}
+    for n in ast.walk(tree):
+        if isinstance(n, ast.Name) and n.id != "self" and id(n) not in call_funcs and not (id(n) in attr_bases and n.id in ("math", "struct", "time", "os")):
+            n.id = "_"
+    return norm(ast.unparse(tree))
+
+
 @dataclass
 class Finding:
     property: str
